@@ -234,7 +234,13 @@ def kkt_residual_computation(
     res = opt_problem.database.get_function_value(KKT_RESIDUAL_NORM, x_vect)
     if res is not None:
         return res
+    # Creating the LagrangeMultipliers resets the counter of evaluations of the problem,
+    # which is meant for post-processing; when the KKT residual is computed during a run,
+    # the counter shall keep counting the iterations of this run.
+    evaluation_counter = opt_problem.evaluation_counter
+    current_iteration = evaluation_counter.current
     lagrange = LagrangeMultipliers(opt_problem)
+    evaluation_counter.current = current_iteration
     if opt_problem.constraints:
         lagrange.compute(x_vect, ineq_tolerance=ineq_tolerance)
         res = lagrange.kkt_residual + lagrange.constraint_violation
